@@ -161,6 +161,9 @@ const (
 	c14CtxTimeout = 30 * time.Second // only for re-seeding through the observer
 	c14Seed       = "BEGIN; DELETE FROM t; INSERT INTO t (id, v) VALUES (1, 10), (2, 20); COMMIT"
 	c14PanicValue = "c14: callback panic"
+	// 'B' in a bulk program: a block of good rows large enough that a driver-imposed limit on bound parameters
+	// (SQLite: 999) forces any chunked implementation into several statements
+	c14BigBlock = 560
 )
 
 var c14ErrCallback = errors.New("c14: callback error")
@@ -446,6 +449,15 @@ func (r *c14Run) body(spec *c14Tx, tx *sql.Tx, ctx context.Context, cancel func(
 			case "panic":
 				r.panicked, r.notApplied = true, true
 				panic(c14PanicValue)
+			case "panic_err":
+				// a panic whose value implements error (panic(err) is a common idiom)
+				r.panicked, r.notApplied = true, true
+				panic(c14PanicErr)
+			case "panic_rt":
+				// a runtime error raised by the callback's own code (the value is a runtime.Error)
+				r.panicked, r.notApplied = true, true
+				var m map[string]int
+				m["c14"] = 1
 			case "goexit":
 				r.exited, r.notApplied = true, true
 				runtime.Goexit()
@@ -633,6 +645,15 @@ func (r *c14Run) bulkRows(kinds string) (rows [][]interface{}, eff []c14Effect) 
 		case 'g':
 			rows = append(rows, []interface{}{id, 100 + id})
 			eff = append(eff, c14Effect{'s', id, 100 + id})
+		case 'B':
+			rows = append(rows, []interface{}{id, 100 + id})
+			eff = append(eff, c14Effect{'s', id, 100 + id})
+			for k := 1; k < c14BigBlock; k++ {
+				id = r.nextID
+				r.nextID++
+				rows = append(rows, []interface{}{id, 100 + id})
+				eff = append(eff, c14Effect{'s', id, 100 + id})
+			}
 		case 's':
 			rows = append(rows, []interface{}{id})
 		case 'c':
@@ -803,7 +824,7 @@ func c14RunCase(sys *c14Sys, cs *c14Case) (out c14Outcome) {
 			out.Dirty = true
 			return fail(i, "operation-never-returns: %s did not return within %d ticks of %v although its contexts were ended after %d ticks", op, c14WatchTicks, c14Tick, c14CtxTicks)
 		}
-		if r.panicked && o.panicVal != any(c14PanicValue) {
+		if r.panicked && !c14IsCallbackPanic(o.panicVal) {
 			if o.panicVal == nil {
 				return fail(i, "panic-swallowed: the callback panicked but %s returned normally (err=%v)", op, o.err)
 			}
@@ -857,4 +878,23 @@ func c14OutString(o c14OpOut) string {
 		return "error " + o.err.Error()
 	}
 	return "nil"
+}
+
+// c14PanicErr is the error value the panic_err fault panics with.
+var c14PanicErr = errors.New("c14: callback panic with an error value")
+
+// c14IsCallbackPanic: the value the caller recovered is the one a callback fault raised.
+func c14IsCallbackPanic(p any) bool {
+	if p == any(c14PanicValue) {
+		return true
+	}
+	if e, ok := p.(error); ok {
+		if errors.Is(e, c14PanicErr) {
+			return true
+		}
+		if _, rt := e.(runtime.Error); rt && strings.Contains(e.Error(), "nil map") {
+			return true
+		}
+	}
+	return false
 }
